@@ -77,6 +77,8 @@ def setup():
 
 def run_check(pid, tier, seed, replay=None):
     t0 = time.time()
+    import shutil
+    shutil.rmtree(os.path.join(VERIF, 'replays', pid), ignore_errors=True)
     mod = importlib.import_module('props.' + pid)
     known = load_known().get(pid, [])
     violations = []       # (description, replay object)
